@@ -327,6 +327,7 @@ def generate_sources(es: Optional[list[Entry]] = None) -> tuple[str, str, dict]:
     consisting of one unknown operator (the theorem about it cannot be proved)."""
     es = es or entries()
     info: dict[str, Any] = {}
+    models: dict[str, Any] = {}
     bits_defs, main_defs, tdefs = [], [], []
     bits_names, main_names, tnames = [], [], []
     for e in es:
@@ -335,6 +336,7 @@ def generate_sources(es: Optional[list[Entry]] = None) -> tuple[str, str, dict]:
             err = None
         except Exception as ex:   # the exporter refuses the program
             model, err = None, f"{type(ex).__name__}: {ex}"[:300]
+        models[e.name] = model
         if e.kind == "scalar":
             if model is None:
                 tr = {"inputs": [DT_OF_NP[np.dtype(d).name] for d in e.in_dts],
@@ -363,4 +365,5 @@ def generate_sources(es: Optional[list[Entry]] = None) -> tuple[str, str, dict]:
             ",\n  ".join(f"({_lean_str(n)}, recipe_{n})" for n in main_names) + "]\n\n" +
             "def trecipes : List (String × TRecipe) := [\n  " +
             ",\n  ".join(f"({_lean_str(n)}, t_{n})" for n in tnames) + "]\n\nend J2O.Gen.C01\n")
+    info["__models__"] = models
     return bits, main, info
